@@ -93,7 +93,9 @@ func (x *Exec) lemmaFormula(lem *Lemma, subst map[string]string, dropAll bool) *
 		for _, k := range keys {
 			nm := "|" + si.prefix + smtName(k) + "|"
 			srt := si.heapSort[k]
-			if strings.HasPrefix(k, "E|") || strings.HasPrefix(k, "MD|") || strings.HasPrefix(k, "MV|") {
+			if strings.HasPrefix(k, "G|") {
+				lp.symbols = append(lp.symbols, fmt.Sprintf("(%s %s)", nm, srt))
+			} else if strings.HasPrefix(k, "E|") || strings.HasPrefix(k, "MD|") || strings.HasPrefix(k, "MV|") {
 				lp.symbols = append(lp.symbols, fmt.Sprintf("(%s (Array Int (Array Int %s)))", nm, srt))
 			} else {
 				lp.symbols = append(lp.symbols, fmt.Sprintf("(%s (Array Int %s))", nm, srt))
